@@ -88,7 +88,13 @@ func cmdCheck(args []string) {
 		fmt.Fprintln(os.Stderr, "CHECK BROKEN: cannot load /repo:", err)
 		os.Exit(2)
 	}
+	// VERIF_OUT redirects everything a run writes (scratch, replays, evidence): used by the self-test,
+	// which checks modified copies of /repo and must not touch the real evidence
+	outBase := envOr("VERIF_OUT", "")
 	work := filepath.Join(*verifDir, ".work", *prop+"-"+*tier)
+	if outBase != "" {
+		work = filepath.Join(outBase, "work", *prop+"-"+*tier)
+	}
 	os.RemoveAll(work)
 	os.MkdirAll(work, 0o755)
 	opt := Options{Tier: *tier, Seed: seed, Timeout: 10, InlineDepth: 3, MaxPaths: 4096, WorkDir: work}
@@ -118,8 +124,13 @@ func cmdCheck(args []string) {
 	for _, k := range keys {
 		ct := e.db.ByFunc[k]
 		fn := e.FindFunc(k)
+		short := strings.TrimPrefix(strings.TrimPrefix(k, e.modPath), "/")
 		if fn == nil {
-			broken = append(broken, "function under contract not found: "+k)
+			// the function the contract is written on is gone: whatever it carried for the property is
+			// no longer established (reported as an undischarged obligation, not as a broken check;
+			// on the unchanged tree either counts against the check)
+			all = append(all, &Obligation{Name: short + ":under-contract", Props: ct.Props, Func: short, FuncKey: k, Kind: "under-contract", Pos: "?", Goal: "false",
+				Result: SolveResult{Answer: "unknown", Solver: "spec", Output: "the function this contract is written on no longer exists in /repo"}})
 			continue
 		}
 		rep := &funcReport{Func: k}
@@ -130,12 +141,22 @@ func cmdCheck(args []string) {
 			continue
 		}
 		opt.Key = k
+		nErr := len(e.specErrors)
 		vc := e.Verify(fn, ct, ct.Props, opt)
+		if len(e.specErrors) > nErr {
+			// clauses that cannot be stated over the current code (a field, variable or function they name is
+			// gone): whatever they carried is not established for this function
+			msgs := append([]string{}, e.specErrors[nErr:]...)
+			e.specErrors = e.specErrors[:nErr]
+			all = append(all, &Obligation{Name: short + ":contract-applies", Props: ct.Props, Func: short, FuncKey: k, Kind: "contract-applies", Pos: "?", Goal: "false",
+				Result: SolveResult{Answer: "unknown", Solver: "spec", Output: "clauses of the contracts this function is checked against cannot be evaluated over the current code: " + strings.Join(msgs, "; ")}})
+		}
 		vcs[k] = vc
 		rep.Paths = vc.npaths
 		if vc.refused != "" {
 			rep.Refused = vc.refused
-			broken = append(broken, fmt.Sprintf("%s is out of reach: %s", k, vc.refused))
+			all = append(all, &Obligation{Name: short + ":under-contract", Props: ct.Props, Func: short, FuncKey: k, Kind: "under-contract", Pos: "?", Goal: "false",
+				Result: SolveResult{Answer: "unknown", Solver: "spec", Output: "the body is outside the verifier's subset, nothing about it is established: " + vc.refused}})
 		}
 		for n := range vc.notes {
 			notes[n] = true
@@ -160,6 +181,13 @@ func cmdCheck(args []string) {
 	}
 	Discharge(all, opt)
 
+	if dbg := os.Getenv("VERIF_DEBUG_FUNC"); dbg != "" {
+		for _, o := range all {
+			if strings.Contains(o.Name, dbg) {
+				fmt.Fprintf(os.Stderr, "debug: %s path=%d mustfail=%v -> %s (%s)\n", o.Name, o.Path, o.MustFail, o.Result.Answer, o.Result.Solver)
+			}
+		}
+	}
 	ff := loadFindings(filepath.Join(*verifDir, "known_findings.json"))
 	type failure struct {
 		name   string
@@ -251,6 +279,9 @@ func cmdCheck(args []string) {
 	knownObls := 0
 	var knownOut []map[string]string
 	replayDir := filepath.Join(*verifDir, "replays", *prop)
+	if outBase != "" {
+		replayDir = filepath.Join(outBase, "replays", *prop)
+	}
 	os.MkdirAll(replayDir, 0o755)
 	for _, name := range failOrder {
 		f := failures[name]
@@ -340,7 +371,7 @@ func cmdCheck(args []string) {
 		"samples":                  samples,
 		"known_findings":           knownOut,
 		"known_finding_obligation_instances_excluded": knownObls,
-		"bounded":                  []interface{}{},
+		"bounded": []interface{}{},
 	}
 	if expl != "" {
 		cov["explanation"] = expl
@@ -356,6 +387,9 @@ func cmdCheck(args []string) {
 		"violations":  violations,
 	}
 	evDir := envOr("VERIF_EVIDENCE_DIR", filepath.Join(*verifDir, "evidence"))
+	if outBase != "" {
+		evDir = filepath.Join(outBase, "evidence")
+	}
 	os.MkdirAll(evDir, 0o755)
 	data, _ := json.MarshalIndent(ev, "", " ")
 	os.WriteFile(filepath.Join(evDir, *prop+".json"), append(data, '\n'), 0o644)
@@ -363,7 +397,9 @@ func cmdCheck(args []string) {
 	if violations > 0 {
 		os.Exit(1)
 	}
-	os.RemoveAll(work)
+	if os.Getenv("VERIF_DEBUG_FUNC") == "" {
+		os.RemoveAll(work)
+	}
 }
 
 func round2(f float64) float64 { return float64(int(f*100+0.5)) / 100 }
@@ -416,7 +452,9 @@ func writeReplay(e *Engine, verifDir, dir, prop string, obls []*Obligation) (str
 	reproduced := false
 	verdict := "no-model"
 	rec["model_is_candidate_only"] = o.Candidate
-	if o.Result.Answer == "sat" || o.Candidate {
+	// a template marked "// probe:" needs no model: it runs the real function over a fixed family of
+	// inputs chosen for that function's obligations and reports those that break the clause
+	if o.Result.Answer == "sat" || o.Candidate || probeTemplate(verifDir, o.Func) {
 		verdict = "no-template"
 		if ok, out, ran := runReplayTemplate(e, verifDir, base, o, model); ran {
 			rec["replay_output"] = abbreviate(out, 4000)
